@@ -835,7 +835,14 @@ class Contract:
 
 
 class LoopSpec:
-    def __init__(self, qname, ordinal, invariant, modifies=None, decreases=None, ghosts=None, note=''):
+    def __init__(self, qname, ordinal, invariant, modifies=None, decreases=None, ghosts=None, note='',
+                 pre=None, step=None):
+        # pre / step: a relation every iteration must satisfy.  `pre` is evaluated at the start of the arbitrary
+        # iteration (after the invariant and the guard are assumed), `step` -- a predicate over `pre` and the
+        # names the invariant may use -- is an obligation at its end.  It says what ONE iteration does, which an
+        # invariant (a property of the state reached, not of how) cannot.
+        self.pre = pre
+        self.step = step
         self.qname = qname
         self.ordinal = ordinal
         self.invariant = invariant
